@@ -7,6 +7,7 @@ import Rtp.Proofs.AV1DepackIdx
 import Rtp.Proofs.AV1Pay
 namespace Rtp.Model.AV1B
 open Rtp Rtp.Model Rtp.Model.AV1
+open Rtp.Model.ObuLemmas
 
 /-- every payload in the list has its byte 0 -/
 def AllNe (ps : List Bytes) : Prop := ∀ p ∈ ps, p ≠ []
